@@ -40,6 +40,9 @@
 #ifndef VF_WSTEPS
 #define VF_WSTEPS 2  // worker-loop iterations per virtual worker
 #endif
+#ifndef VF_SLEEPER
+#define VF_SLEEPER 0
+#endif
 #ifndef VF_EARLY
 #define VF_EARLY 0  // 1: symbolic choice of one early waiter step before the workers act
 #endif
@@ -162,7 +165,7 @@ extern "C" void vf_main() {
 #if VF_PRE & 2
   {
     // a worker parked (real enterSleep); schedulePlaced claims it and pushes to its steal ring
-    int32_t w = (int32_t)vf_range_u32(0, VF_N - 1);
+    int32_t w = VF_SLEEPER;  // which worker is parked: instance parameter (a symbolic choice makes every later step symbolic)
     pool->wakeState_.load()->enterSleep(w);
     pool->schedulePlaced(Task{VF_COUNT + g_submitted++}, ForceQueuingTag());
     vf_check(!pool->stealRings_[(size_t)w / pool->stealRingSharing_].empty(),
@@ -241,7 +244,7 @@ extern "C" void vf_main() {
     if (arenaRings > 2) ringsEmpty = ringsEmpty && pool->rings_[2].empty();
     if (arenaRings > 3) ringsEmpty = ringsEmpty && pool->rings_[3].empty();
     vf_check(arenaRings <= 4, "harness: arena holds at most 4 rings");
-    vf_check(ringsEmpty || ts->outstandingTaskCount_.load(std::memory_order_acquire) == 0,
+    vf_check(!done || ringsEmpty || ts->outstandingTaskCount_.load(std::memory_order_acquire) == 0,
              "a task of a set with outstanding work is stranded in a ring after workers and waiter did all they can");
     bool beyond = false;
     if (arenaRings > 1 && polled <= 1) beyond = beyond || !pool->rings_[1].empty();
@@ -250,12 +253,14 @@ extern "C" void vf_main() {
     vf_check(!beyond, "a task sits in a ring with index >= numRings_ (no worker and no waiter polls it)");
   }
   // exactly once for the bulk; pre-history tasks: exactly once as well (workers / resize / waiter had their turn)
-  vf_check(g_runs[0] == 1, "bulk task 0 did not run exactly once");
+  // (if tryWait did not complete, the failure is already reported above; these then only restate it and
+  // every failing check costs a trace run + native replay)
+  vf_check(!done || g_runs[0] == 1, "bulk task 0 did not run exactly once");
 #if VF_COUNT > 1
-  vf_check(g_runs[1] == 1, "bulk task 1 did not run exactly once");
+  vf_check(!done || g_runs[1] == 1, "bulk task 1 did not run exactly once");
 #endif
 #if VF_COUNT > 2
-  vf_check(g_runs[2] == 1, "bulk task 2 did not run exactly once");
+  vf_check(!done || g_runs[2] == 1, "bulk task 2 did not run exactly once");
 #endif
 #if VF_PRE
   for (int i = VF_COUNT; i < VF_COUNT + VF_NPRE; ++i) {
